@@ -613,6 +613,7 @@ func main() {
 
 	var violLines []string
 	unconfirmed := 0
+	minimised := 0
 	os.MkdirAll(filepath.Join(verifDir, "replays"), 0o755)
 	for _, sig := range newSigs {
 		o := a.firstBySig[sig]
@@ -625,8 +626,14 @@ func main() {
 		rf := map[string]any{"property": prop, "tier": tier, "seed": o.Seed, "base_seed": seed, "index": o.Index, "signature": sig, "detail": detail,
 			"hash": o.Hash, "build": map[bool]string{false: "plain", true: "race"}[tc.race], "trace": o.History}
 		if len(o.Scenario) > 0 {
-			sc := minimise(bin, prop, tier, o, sig)
-			rf["scenario"] = sc
+			if minimised < 4 {
+				// (the first few signatures are minimised; a change that breaks a property in many
+				// ways at once must not turn the check into an hour of shrinking)
+				minimised++
+				rf["scenario"] = minimise(bin, prop, tier, o, sig)
+			} else {
+				rf["scenario"] = o.Scenario
+			}
 		}
 		name := fmt.Sprintf("%s-%d-%d-%s.json", prop, seed, o.Index, sanitize(sig))
 		path := filepath.Join(verifDir, "replays", name)
@@ -634,7 +641,7 @@ func main() {
 		os.WriteFile(path, b, 0o644)
 		// schedule-level minimisation (records the scheduling choices of the failing run and
 		// sets as many as possible to "keep running the current task"); rewrites the file
-		if len(o.Scenario) > 0 {
+		if len(o.Scenario) > 0 && minimised <= 4 {
 			mc := exec.Command(bin, "-prop", prop, "-minsched", path)
 			mc.Env = append(os.Environ(), "GOMAXPROCS=2")
 			mc.Run()
